@@ -35,8 +35,30 @@ pub fn c14(o: &Oracle, thorough: bool, seed: u64, rep: &Report) {
             vals.push((1u64 << a) | (1u64 << b));
         }
     }
+    for r in runs() {
+        vals.push(r);
+    }
+    // values that look like the other representation: a card word widened to 64 bits, alone, moved to the
+    // upper half, and with other bits above it (none of them is a single card bit, except by coincidence
+    // of being a power of two below 2^52, which the expectation below accounts for)
+    for c in &o.cards {
+        let w = c.w as u64;
+        vals.push(w);
+        vals.push(w << 32);
+        vals.push(w | (w << 32));
+        for k in 0..32 {
+            vals.push(w | (1u64 << (32 + k)));
+        }
+        vals.push(w | 0xFFFF_FFFF_0000_0000);
+        vals.push((c.w.flag_as_pair()) as u64);
+        vals.push(1u64 << c.bit | 0xFFFF_FFFF_0000_0000 & !o.all_bits);
+    }
     let structured = vals.len() as u64;
     let mut rng = Rng::new(seed ^ 0xC14);
+    for _ in 0..(if thorough { 2_000_000 } else { 200_000 }) {
+        // seeded: a card word in the low half, arbitrary bits in the high half
+        vals.push(o.cards[rng.below(52) as usize].w as u64 | (rng.next() << 32));
+    }
     let per = if thorough { 20_000 } else { 2_000 };
     for pc in 0..=64u32 {
         for _ in 0..per {
@@ -57,7 +79,7 @@ pub fn c14(o: &Oracle, thorough: bool, seed: u64, rep: &Report) {
         }
         rep.eval(1);
     }
-    rep.space("all 64 single bits and 2,016 two-bit values", true, structured);
+    rep.space("all 64 single bits, 2,016 two-bit values, every run of consecutive bits, and every card word widened to 64 bits (alone, shifted, with bits above it)", true, structured);
     rep.space("seeded 64-bit values of every population count", false, vals.len() as u64 - structured);
     // round trip, constants, deck of bits, masks, rank groups
     let bdeck = <BinaryCard as BC64>::DECK;
@@ -241,6 +263,9 @@ pub fn c15(o: &Oracle, thorough: bool, seed: u64, rep: &Report) {
             sets.push(lane & !(1u64 << a));
         }
     }
+    for r in runs() {
+        sets.push(r);
+    }
     let structured = sets.len() as u64;
     let nrand = if thorough { 400_000 } else { 30_000 };
     for _ in 0..nrand {
@@ -265,6 +290,18 @@ pub fn c15(o: &Oracle, thorough: bool, seed: u64, rep: &Report) {
     rep.space("seeded samples of the 2^64 sets, each peeled to exhaustion and beyond", false, nrand);
     rep.distinct(hands + nsets as u64);
     rep.sample(observe(&json!({"op":"bc_peel","pre":limbs(all | (1 << 60))})));
+}
+
+/// every run of consecutive one bits: widths 1..=64 at every position
+fn runs() -> Vec<u64> {
+    let mut v = vec![];
+    for width in 1..=64u32 {
+        let m = if width == 64 { u64::MAX } else { (1u64 << width) - 1 };
+        for shift in 0..=(64 - width) {
+            v.push(m << shift);
+        }
+    }
+    v
 }
 
 fn lanes() -> Vec<u64> {
@@ -301,6 +338,17 @@ pub fn c16(o: &Oracle, thorough: bool, seed: u64, rep: &Report) {
                 vals.push(lane | (1u64 << a) | (1u64 << b));
             }
         }
+    }
+    // every run of consecutive bits (any width, any position, byte-aligned or not), alone, with one bit
+    // added below / above, and with one bit of the run cleared
+    for r in runs() {
+        vals.push(r);
+        vals.push(!r);
+        vals.push(r | 1);
+        vals.push(r | (1u64 << 51));
+        vals.push(r | (1u64 << 63));
+        vals.push(r & (r - 1));
+        vals.push(r & !(1u64 << (63 - r.leading_zeros())));
     }
     let structured = vals.len() as u64;
     let mut rng = Rng::new(seed ^ 0xC16);
@@ -343,7 +391,7 @@ pub fn c16(o: &Oracle, thorough: bool, seed: u64, rep: &Report) {
     }
     let _ = Two::default();
     rep.distinct(vals.len() as u64);
-    rep.space("all 64 x 64 one- and two-bit values, the empty set, and every byte / 16-bit / 32-bit lane (and complement) with up to two extra bits", true, structured);
+    rep.space("all 64 x 64 one- and two-bit values, the empty set, every byte / 16-bit / 32-bit lane (and complement) with up to two extra bits, and every run of consecutive bits of any width at any position (with a bit added or cleared)", true, structured);
     rep.space("seeded values of every population count 0..64", false, vals.len() as u64 - structured);
     rep.sample(observe(&json!({"op":"two_from_bc","bc":limbs((1u64 << 51) | 1)})));
     rep.sample(observe(&json!({"op":"two_from_bc","bc":limbs((1u64 << 52) | 1)})));
